@@ -583,7 +583,7 @@ pub fn run(seed: u64, tier: &str, out: &std::path::Path, _extra: &[(String, Stri
         run.push("corpus", true, c.text);
     }
     let mut rng = Rng::new(seed ^ 0xC10C_10C1_0000_0000);
-    let ncases = if run.thorough() { 2500 } else { 250 };
+    let ncases = if run.thorough() { 2000 } else { 250 };
     let mut counts: std::collections::BTreeMap<String, u64> = Default::default();
     for k in 0..ncases {
         let n = 1 + (rng.below(4) as usize);
